@@ -14,9 +14,15 @@ Print Assumptions c16_loaded_exactly.
 (* read_meme_complete: for every file of the grammar the parse is the list of all motifs in
    file order with exactly the values their row tokens state *)
 Theorem c16_read_meme_complete : forall g,
-  wf_file g = true -> read_meme (render_file g) = Ok (motifs_of g).
+  wf_file g = true -> read_meme None (render_file g) = Ok (motifs_of g).
 Proof. exact read_meme_complete. Qed.
 Print Assumptions c16_read_meme_complete.
+
+(* with n_motifs = k >= 1: the first k motifs of the file (all when there are fewer) *)
+Theorem c16_read_meme_first : forall k g, wf_file g = true -> 1 <= k ->
+  read_meme (Some k) (render_file g) = Ok (firstn (Z.to_nat k) (motifs_of g)).
+Proof. exact read_meme_first. Qed.
+Print Assumptions c16_read_meme_first.
 
 (* order_spec: sort by idx = row * n_sets + set  =  round-robin merge, unequal sizes included *)
 Theorem c16_order_spec : forall (sets : list (list locus)), interleave sets = rr sets.
@@ -30,12 +36,15 @@ Theorem c16_window_spec : forall x c l,
   scope x -> In c (x_gen x) -> edge x c l = false ->
   let len := Z.of_nat (length (c_seq c)) in
   (0 <= lo_in x l /\ lo_in x l + n_in x <= len /\
-   mseq x c l = map base_code (slice_enum 0 (c_seq c) (lo_in x l) (n_in x)) /\
+   mseq x c l = map (base_code (x_alpha x)) (slice_enum 0 (c_seq c) (lo_in x l) (n_in x)) /\
    length (mseq x c l) = Z.to_nat (x_win x + 2 * x_jit x)) /\
   (has_sig x = true ->
    0 <= lo_out x l /\ lo_out x l + n_out x <= len /\
    msig x c l = map (fun t => slice_enum 0 t (lo_out x l) (n_out x)) (c_sig c) /\
-   Forall (fun w => length w = Z.to_nat (x_wout x + 2 * x_jit x)) (msig x c l)).
+   Forall (fun w => length w = Z.to_nat (x_wout x + 2 * x_jit x)) (msig x c l)) /\
+  (has_insig x = true ->
+   minsig x c l = map (fun t => slice_enum 0 t (lo_in x l) (n_in x)) (c_insig c) /\
+   Forall (fun w => length w = Z.to_nat (x_win x + 2 * x_jit x)) (minsig x c l)).
 Proof. exact window_spec. Qed.
 Print Assumptions c16_window_spec.
 
@@ -66,7 +75,11 @@ Print Assumptions c16_n_loci_cap.
 (* the hypotheses are satisfiable: a file of the grammar, a call inside the scope *)
 Example c16_scope_inhabited : in_scope x_example = true /\ wf_file g_eof = true /\
   extract_loci x_example =
-    Ok [([0; 1; 2; 3; 4], [[6; 7; 8; 9]]); ([0; 1; 2; 3; 4], [[1; 2; 3; 4]]); ([3; 4; 0; 1; 2], [[4; 5; 6; 7]])].
+    Ok [([0; 1; 2; 3; -1], [[6; 7; 8; 9]], [[1; 0; 1; 0; 1]]);
+        ([0; 1; 2; 3; -1], [[1; 2; 3; 4]], [[0; 1; 0; 1; 0]]);
+        ([3; -1; 0; 1; 2], [[4; 5; 6; 7]], [[1; 0; 1; 0; 1]])] /\
+  option_map (map fst) (match read_meme (Some 1) (render_file g_adjacent) with Ok m => Some m | Err => None end)
+    = Some [[109; 49]].
 Proof. exact scope_example. Qed.
 
 (* the parser before commit f15ee24 (motif committed only by the line after its last row)
